@@ -465,8 +465,21 @@ def kEDGES := kw "EDGES"
 def kFACES := kw "FACES"
 def kPOLYHEDRA := kw "POLYHEDRA"
 
-/-- cc:83-152: header and vertex section -/
-def sectHeader (cfg : Cfg) (input : Str) : RS :=
+/-- `getCleanLine; sstr.str(line); sstr >> s_tmp; toupper; if (s_tmp != KEYWORD) return false` -/
+def expectKeyword (kwd : Str) (e : Err) (st : RS) : RS :=
+  let st := st.nextLine
+  let w := readWordUpper (IStream.ofStr st.line) st.stmp
+  let st := { st with stmp := w.1 }
+  if w.1 != kwd then st.fail e else st
+
+/-- the count line and the `reserve_*` that follows it -/
+def countLine (lim : Nat) (st : RS) : RS × Nat :=
+  let st := st.nextLine
+  let n := readCount st.line
+  (if lim < n then st.fail (.alloc n) else st, n)
+
+/-- cc:83-131: the header line(s) up to and including the `Vertices` keyword -/
+def headerPrefix (input : Str) : RS :=
   let st : RS := { is := IStream.ofStr input }
   let st := st.nextLine
   let w1 := readWordUpper (IStream.ofStr st.line) []
@@ -477,54 +490,47 @@ def sectHeader (cfg : Cfg) (input : Str) : RS :=
     let st := if headerFound then st.nextLine else st
     let w := readWordUpper (IStream.ofStr st.line) w2.1
     let st := { st with stmp := w.1 }
-    if w.1 != kVERTICES then st.fail .noVertices
-    else
-      let st := st.nextLine
-      let n := readCount st.line
-      if cfg.lim < n then st.fail (.alloc n)
-      else
-        let st := loopN vertStep n 0 { st with dV := n }
-        { st with verts := st.verts.reverse }
+    if w.1 != kVERTICES then st.fail .noVertices else st
+
+/-- cc:83-152: header and vertex section -/
+def sectHeader (cfg : Cfg) (input : Str) : RS :=
+  let st := headerPrefix input
+  if st.err.isSome then st else
+  let c := countLine cfg.lim st
+  if c.1.err.isSome then c.1 else
+  let st0 : RS := { c.1 with dV := c.2 }
+  let st := loopN vertStep c.2 0 st0
+  { st with verts := st.verts.reverse }
 
 /-- cc:157-207 -/
 def sectEdges (cfg : Cfg) (st : RS) : RS :=
-  let st := st.nextLine
-  let w := readWordUpper (IStream.ofStr st.line) st.stmp
-  let st := { st with stmp := w.1 }
-  if w.1 != kEDGES then st.fail .noEdges
-  else
-    let st := st.nextLine
-    let n := readCount st.line
-    if cfg.lim < n then st.fail (.alloc n)
-    else
-      let st := loopN (edgeStep st.dV) n 0 { st with dE := n }
-      { st with edges := st.edges.reverse }
+  let st := expectKeyword kEDGES .noEdges st
+  if st.err.isSome then st else
+  let c := countLine cfg.lim st
+  if c.1.err.isSome then c.1 else
+  let st0 : RS := { c.1 with dE := c.2 }
+  let st := loopN (edgeStep st0.dV) c.2 0 st0
+  { st with edges := st.edges.reverse }
 
+/-- cc:209-268 -/
 def sectFaces (cfg : Cfg) (st : RS) : RS :=
-  let st := st.nextLine
-  let w := readWordUpper (IStream.ofStr st.line) st.stmp
-  let st := { st with stmp := w.1 }
-  if w.1 != kFACES then st.fail .noFaces
-  else
-    let st := st.nextLine
-    let n := readCount st.line
-    if cfg.lim < n then st.fail (.alloc n)
-    else
-      let st := loopN (faceStep cfg st.edges (2 * st.dE)) n 0 { st with dF := n }
-      { st with faces := st.faces.reverse }
+  let st := expectKeyword kFACES .noFaces st
+  if st.err.isSome then st else
+  let c := countLine cfg.lim st
+  if c.1.err.isSome then c.1 else
+  let st0 : RS := { c.1 with dF := c.2 }
+  let st := loopN (faceStep cfg st0.edges (2 * st0.dE)) c.2 0 st0
+  { st with faces := st.faces.reverse }
 
+/-- cc:270-333 -/
 def sectCells (cfg : Cfg) (st : RS) : RS :=
-  let st := st.nextLine
-  let w := readWordUpper (IStream.ofStr st.line) st.stmp
-  let st := { st with stmp := w.1 }
-  if w.1 != kPOLYHEDRA then st.fail .noCells
-  else
-    let st := st.nextLine
-    let n := readCount st.line
-    if cfg.lim < n then st.fail (.alloc n)
-    else
-      let st := loopN (cellStep cfg st.faces (2 * st.dF)) n 0 st
-      { st with cells := st.cells.reverse }
+  let st := expectKeyword kPOLYHEDRA .noCells st
+  if st.err.isSome then st else
+  let c := countLine cfg.lim st
+  if c.1.err.isSome then c.1 else
+  let st0 : RS := c.1
+  let st := loopN (cellStep cfg st0.faces (2 * st0.dF)) c.2 0 st0
+  { st with cells := st.cells.reverse }
 
 /-- the whole of `readStream` as a state transformer -/
 def readAll (cfg : Cfg) (input : Str) : RS :=
